@@ -7,10 +7,10 @@
 (*  `_partial`: what is left to cited mathematics is said at the theorem.  *)
 (* ====================================================================== *)
 Require Import Arith Lia List Bool ZArith QArith Qcanon.
-From TK Require Import Mat_Sums Mat_Core Mat_Qc Mat_EigSelect EigSelect Mat_EigSelect_Tie
+From TK Require Import Mat_Sums Mat_Core Mat_Qc Spectral_KyFan Mat_EigSelect EigSelect Mat_EigSelect_Tie
                        Lap_Model Lap_Spec Lap_Exec Lap_Proof_Lap Lap_Proof_Embed Lap_Proof_Dm
                        Lap_Proof_Total Lap_Proof_Complete Lap_Proof_Order Lap_Proof_DmOrder Lap_Proof_Exec
-                       Lap_Proof_Method.
+                       Lap_Proof_Method Lap_Proof_KyFan Lap_Proof_KyFanQc.
 Import ListNotations.
 Local Open Scope list_scope.
 Local Open Scope nat_scope.
@@ -651,3 +651,120 @@ Theorem Lap_method_requested_k_refuted :
       mat_of_triplets ts r c <> matL_full (heat_of reqk_dist (qz 1) reqk_expo) (search kreq) n r c.
 Proof. exact le_method_reqk_refuted. Qed.
 Print Assumptions Lap_method_requested_k_refuted.
+
+(* 25. OPTIMALITY (Ky Fan's trace inequality, Spectral_KyFan.v), every ordered field: if the generalised solver's
+       answer is a full decomposition of the pencil (contract + completeness) in ascending order and the skipped
+       column is constant, the returned columns 1..d have cost lam_1 + ... + lam_d and MINIMISE tr(Y^T L Y) among
+       ALL N x d matrices with Y^T Dm Y = I and Y^T Dm 1 = 0 — the variational meaning of "the target_dimension
+       smallest non-zero eigenvalues". *)
+Theorem Lap_ky_fan_optimal :
+  forall (F : Type) (Fo : FieldOps F) (Ff : IsField F) (Fle : OrderedField F)
+         (N d : nat) (L Dm V : mat F) (lam : vec F) (c0 : F),
+    d + 1 <= N -> msym N Dm ->
+    gen_full N L Dm V lam -> ascending N lam ->
+    (forall i, i < N -> V i 0 = c0) ->
+    quad N d L (fun i c => V i (1 + c)) = sumn d (fun c => lam (1 + c)) /\
+    forall Q : mat F,
+      meq d d (mmul N (mtrans Q) (mmul N Dm Q)) mI ->
+      (forall c, c < d -> dot N (mcol Q c) (mv N Dm (fun _ => 1%F)) = 0%F) ->
+      fle (quad N d L (fun i c => V i (1 + c))) (quad N d L Q).
+Proof. exact @le_optimal_gen. Qed.
+Print Assumptions Lap_ky_fan_optimal.
+
+(* ... and at Qc with the hypothesis on the skipped column DISCHARGED (connected graph, positive weights): the
+   embedding embed() returns satisfies the generalised eigenproblem with the normalisation of the property AND is a
+   minimiser of tr(Y^T L Y) under those constraints.  What remains an oracle hypothesis is only the solver's
+   contract itself (residual, Dm-orthonormality, completeness, ascending order — measured on every run). *)
+Theorem Lap_embedding_optimal_Qc :
+  forall (heat : nat -> nat -> Qc) (n : nat) (nbrs : list (list nat)) (k d : nat)
+         (Dm V : mat Qc) (lam : vec Qc),
+    d + 1 <= n ->
+    (forall i q, i < n -> q < k -> nb_at nbrs i q < n) ->
+    (forall i q, i < n -> q < k -> (0 < heat i (nb_at nbrs i q))%Qc) ->
+    lconnected n nbrs k ->
+    msym n Dm ->
+    gen_contract n (matL heat k nbrs n) Dm V lam ->
+    meq n n (mmul n V (mmul n (mtrans V) Dm)) mI ->
+    (forall a b, a <= b -> b < n -> (lam a <= lam b)%Qc) ->
+    exists Y, le_embedding n d V = Some Y /\
+      le_spec n d (matL heat k nbrs n) Dm Y (fun c => lam (1 + c)) /\
+      quad n d (matL heat k nbrs n) Y = sumn d (fun c => lam (1 + c)) /\
+      forall Q : mat Qc,
+        meq d d (mmul n (mtrans Q) (mmul n Dm Q)) mI ->
+        (forall c, c < d -> dot n (mcol Q c) (mv n Dm (fun _ => 1%Qc)) = 0%Qc) ->
+        (quad n d (matL heat k nbrs n) Y <= quad n d (matL heat k nbrs n) Q)%Qc.
+Proof. exact le_optimal_Qc. Qed.
+Print Assumptions Lap_embedding_optimal_Qc.
+
+(* hypotheses: Lap_smallest_nonzero_nonvacuous + Lap_pencil_spectrum_nonvacuous (4-cycle).  A competitor for d = 1:
+   the column of the eigenvalue 2 is Dm-normalised and Dm-orthogonal to 1; its cost 2 is above the optimum 1 *)
+Example Lap_embedding_optimal_nonvacuous :
+  let L := matL c4_heat 2 c4_nbrs 4 in
+  let Q : mat Qc := fun i _ => c4_V i 3 in
+  meq 1 1 (mmul 4 (mtrans Q) (mmul 4 c4_D Q)) mI /\
+  dot 4 (mcol Q 0) (mv 4 c4_D (fun _ => 1%Qc)) = 0%Qc /\
+  quad 4 1 L (fun i c => c4_V i (1 + c)) = qz 1 /\ quad 4 1 L Q = qz 2.
+Proof.
+  split; [apply meq_by_compute; vm_compute; reflexivity|].
+  split; [apply Qc_is_canon; vm_compute; reflexivity|].
+  split; apply Qc_is_canon; vm_compute; reflexivity.
+Qed.
+
+(* 26. Diffusion Map, every ordered field: for a full orthonormal ascending decomposition of the symmetric conjugate
+       M whose top column is a multiple of s = sqrt q (the trivial pair), the d kept eigenvectors have
+       tr = lam_(N-1-d) + ... + lam_(N-2) and MAXIMISE tr(Q^T M Q) among all orthonormal d-frames orthogonal to s:
+       the leading NON-TRIVIAL eigenpairs.  The eigenvalues may be negative (non-Euclidean distance inputs). *)
+Theorem Dm_ky_fan_optimal :
+  forall (F : Type) (Fo : FieldOps F) (Ff : IsField F) (Fle : OrderedField F)
+         (N d : nat) (M V : mat F) (lam : vec F) (s : vec F) (al : F),
+    d + 1 <= N ->
+    sym_contract N M V lam -> meq N N (mmul N V (mtrans V)) mI -> ascending N lam ->
+    (forall i, i < N -> V i (N - 1) = (al * s i)%F) ->
+    quad N d M (fun i c => V i (N - (d + 1) + c)) = sumn d (fun c => lam (N - (d + 1) + c)) /\
+    forall Q : mat F,
+      meq d d (mmul N (mtrans Q) Q) mI ->
+      (forall c, c < d -> dot N (mcol Q c) s = 0%F) ->
+      fle (quad N d M Q) (quad N d M (fun i c => V i (N - (d + 1) + c))).
+Proof. exact @dm_optimal_gen. Qed.
+Print Assumptions Dm_ky_fan_optimal.
+
+Theorem Dm_leading_pairs_optimal_Qc :
+  forall (K : mat Qc) (n d : nat) (s : vec Qc) (V : mat Qc) (lam : vec Qc),
+    d + 1 <= n ->
+    (forall i j, i < n -> j < n -> (0 < K i j)%Qc) ->
+    (forall i j, i < n -> j < n -> K i j = K j i) ->
+    (forall i, i < n -> (s i * s i)%F = dm_Q K n i) ->
+    (forall i, i < n -> s i <> 0%Qc) ->
+    sym_contract n (dm_sym K n s) V lam ->
+    meq n n (mmul n V (mtrans V)) mI ->
+    (forall a b, a <= b -> b < n -> (lam a <= lam b)%Qc) ->
+    quad n d (dm_sym K n s) (fun i c => V i (n - (d + 1) + c)) = sumn d (fun c => lam (n - (d + 1) + c)) /\
+    forall Q : mat Qc,
+      meq d d (mmul n (mtrans Q) Q) mI ->
+      (forall c, c < d -> dot n (mcol Q c) s = 0%Qc) ->
+      (quad n d (dm_sym K n s) Q <= quad n d (dm_sym K n s) (fun i c => V i (n - (d + 1) + c)%nat))%Qc.
+Proof. exact dm_optimal_Qc. Qed.
+Print Assumptions Dm_leading_pairs_optimal_Qc.
+
+(* hypotheses: Dm_map_nonvacuous (Walsh-Hadamard instance).  Competitor for d = 1: the eigenvector of the NEGATIVE
+   eigenvalue -1/4 is a unit vector orthogonal to s; its cost -1/4 is below the optimum 1/4.  And the map itself on
+   that instance with d = 3, t = 3 (odd): the column of the negative eigenvalue is (-1/4)^3 psi / psi_top, sign
+   included *)
+Example Dm_leading_pairs_optimal_nonvacuous :
+  let M := dm_sym exm_K 4 exm_s in
+  let Q : mat Qc := fun i _ => exm_V i 0 in
+  meq 1 1 (mmul 4 (mtrans Q) Q) mI /\
+  dot 4 (mcol Q 0) exm_s = 0%Qc /\
+  quad 4 1 M Q = qfrac (-1) 4 /\ quad 4 1 M (fun i c => exm_V i (4 - (1 + 1) + c)) = qfrac 1 4 /\
+  (match dm_embedding 4 3 3 exm_V exm_lam (@fpow Qc _) with
+   | Some Y => mlist_eqb (mtab 4 3 Y)
+                 [[qfrac (-1) 64; qz 0; qfrac 1 64]; [qfrac 1 64; qz 0; qfrac 1 64];
+                  [qfrac 1 64; qz 0; qfrac (-1) 64]; [qfrac (-1) 64; qz 0; qfrac (-1) 64]]
+   | None => false end) = true.
+Proof.
+  split; [apply meq_by_compute; vm_compute; reflexivity|].
+  split; [apply Qc_is_canon; vm_compute; reflexivity|].
+  split; [apply Qc_is_canon; vm_compute; reflexivity|].
+  split; [apply Qc_is_canon; vm_compute; reflexivity|].
+  vm_compute. reflexivity.
+Qed.
